@@ -1101,7 +1101,9 @@ class Vector():
 	def min(self):
 		if self.ndims() == 2:
 			return self.copy((c.min() for c in self.cols()), name=None).T
-		return min(self)
+		# Exclude None values from min
+		non_none = [v for v in self._underlying if v is not None]
+		return min(non_none) if non_none else None
 
 	def sum(self):
 		if self.ndims() == 2:
